@@ -2916,8 +2916,14 @@ sexp sexp_ratio_normalize (sexp ctx, sexp rat, sexp in) {
   sexp_ratio_numerator(rat)
     = sexp_quotient(ctx, sexp_ratio_numerator(rat), num);
   if (sexp_exact_negativep(sexp_ratio_denominator(rat))) {
-    sexp_negate(sexp_ratio_numerator(rat));
-    sexp_negate(sexp_ratio_denominator(rat));
+    /* the parts may still be the caller's operands (sexp_quotient returns
+       its argument when the gcd is 1), so negate copies of them */
+    if (sexp_bignump(sexp_ratio_numerator(rat)))
+      sexp_ratio_numerator(rat) = sexp_copy_bignum(ctx, NULL, sexp_ratio_numerator(rat), 0);
+    if (sexp_bignump(sexp_ratio_denominator(rat)))
+      sexp_ratio_denominator(rat) = sexp_copy_bignum(ctx, NULL, sexp_ratio_denominator(rat), 0);
+    sexp_negate_exact(sexp_ratio_numerator(rat));
+    sexp_negate_exact(sexp_ratio_denominator(rat));
   }
   sexp_ratio_numerator(rat) = sexp_bignum_normalize(sexp_ratio_numerator(rat));
   sexp_ratio_denominator(rat) = sexp_bignum_normalize(sexp_ratio_denominator(rat));
